@@ -441,12 +441,12 @@ def rule_preamble_pairing(ctx, rep: Report, rid="T1"):
     for st, val, acc_ in _emissions(loop):
         if isinstance(val, ast.Call) and isinstance(val.func, ast.Attribute) and val.func.attr == "format":
             src = unparse(val.func.value)
-            gs = [(t, pol) for t, pol in guards_of(st, gp, include_exits=False)]
+            gs = [(t, pol) for t, pol in guards_of(st, gp, include_exits=True)]      # an earlier `if ..: continue` is a condition too
             frag[src] = (_Emit(st, val), gs, acc_)
     tc = frag.get("WrapperTemplate.typdef_collectors")
     do = frag.get("WrapperTemplate.delete_obj")
     rep.add(rid, "preamble:collector declaration and clean-up fragment emitted under identical conditions for every class",
-            tc is not None and do is not None and tc[1] == do[1] == [],
+            tc is not None and do is not None and tc[1] == do[1] and all("ignore_classes" in t for t, _ in tc[1]),
             f"collector under {tc[1] if tc else None}, clean-up under {do[1] if do else None}: a collector without its "
             f"clean-up entry leaks at unload; a clean-up entry without collector does not compile", f"{ci.mod.rel}:{loop.lineno}")
     if tc and do:
@@ -457,9 +457,10 @@ def rule_preamble_pairing(ctx, rep: Report, rid="T1"):
                 and k1.get("class_name") == k2.get("class_name"), f"{k1} vs {k2}", f"{ci.mod.rel}:{loop.lineno}")
     # RTTI
     rtti = [st for st, val, acc_ in _emissions(loop) if "typeid" in unparse(val)]
-    ok = len(rtti) == 1 and [t for t, pol in guards_of(rtti[0], gp, include_exits=False) if pol] == [f"{cvar}.is_virtual"]
+    ok = len(rtti) == 1 and tc is not None and guards_of(rtti[0], gp, include_exits=True) == tc[1] + [(f"{cvar}.is_virtual", True)]
     rep.add(rid, "preamble:RTTI registry entry iff the class is virtual", ok,
-            f"guards {[guards_of(r, gp, include_exits=False) for r in rtti]}", f"{ci.mod.rel}:{loop.lineno}")
+            f"guards {[guards_of(r, gp, include_exits=True) for r in rtti]} (an earlier `continue` in the loop body counts): a virtual class that is not "
+            f"registered is handed back to MATLAB as its base class", f"{ci.mod.rel}:{loop.lineno}")
     # the accumulated fragments reach their templates
     txt = unparse(gp)
     rep.add(rid, "preamble:clean-up fragments are spliced into _deleteAllObjects, RTTI lines into the registry function",
@@ -2633,3 +2634,44 @@ def rule_enum_lookup_covers_scope(ctx, rep: Report, rid="M13"):
                 f"{probs}: an enum declared behind the class that uses it (legal in an interface file) is then not recognised and its values are "
                 f"unwrapped / returned as class handles (`unwrap_shared_ptr< E >(in[k], \"ptr_E\")`, `wrap_shared_ptr(std::make_shared<E>(..))`) "
                 f"instead of `unwrap_enum<E>` / `wrap_enum`", loc)
+
+
+def rule_membership_tables_are_collections(ctx, rep: Report, rid="T15", classes=("CheckMixin", "FormatMixin", "MatlabWrapper")):
+    """`name in self.<table>` is a test of membership only when the table is a collection.  A table spelt `('pickle')` -
+    parentheses without the comma - is the *string* 'pickle', and `in` becomes a substring test: every method whose name
+    occurs inside it (`k`, `le`, `pick`) is treated as listed.  Every class-level or constructor-assigned attribute that
+    stands on the right of `in` / `not in` somewhere in the class has to be a tuple, list, set, dict (or a call building one)."""
+    prog = ctx.prog
+    n = 0
+    seen = set()
+    for cname in classes:
+        ci = prog.cls(cname)
+        used: Dict[str, ast.AST] = {}
+        for k in prog.mro(prog.cls("MatlabWrapper")):
+            for fn in k.methods.values():
+                for c in ast.walk(fn):
+                    if isinstance(c, ast.Compare) and len(c.ops) == 1 and isinstance(c.ops[0], (ast.In, ast.NotIn)):
+                        r = c.comparators[0]
+                        if isinstance(r, ast.Attribute) and isinstance(r.value, ast.Name) and r.value.id == "self":
+                            used.setdefault(r.attr, c)
+        for attr, use in sorted(used.items()):
+            vals = []
+            a = prog.find_attr(ci, attr) if attr in ci.attrs else None
+            if a is not None:
+                vals.append(a[1])
+            init = ci.methods.get("__init__")
+            if init is not None:
+                vals += [st.value for st in walk_no_nested(init) if isinstance(st, ast.Assign) and len(st.targets) == 1
+                         and unparse(st.targets[0]) == f"self.{attr}"]
+            for v in vals:
+                if (cname, attr, v.lineno) in seen:
+                    continue
+                seen.add((cname, attr, v.lineno))
+                n += 1
+                is_text = isinstance(v, (ast.JoinedStr,)) or (isinstance(v, ast.Constant) and isinstance(v.value, str))
+                rep.add(rid, f"table:{cname}.{attr}:a collection, not a string", not is_text,
+                        f"`{attr} = {unparse(v)[:40]}` is a string (parentheses without a trailing comma do not make a tuple), and "
+                        f"`{unparse(use)[:50]}` (line {use.lineno}) is therefore a substring test: every name that occurs inside it counts as listed",
+                        f"{ci.mod.rel}:{v.lineno}", nontrivial=is_text)
+    if n < 5:
+        raise AnalysisError(f"{rep.prop}/{rid}: only {n} membership tables found in the MATLAB generator")
